@@ -29,6 +29,13 @@ CLAIMED["C11"] = dict(
     note="Trusted base: loom's model of std::sync::Mutex; the BFS canonical key (sorted cache map incl. value bits; hit/miss counters are never read by getters). rayon's work-stealing schedule is not controllable: par_pure schedules are uncontrolled, only its configuration space is enumerated. Continuous state variables: a few fixed states per model.",
 )
 
+CLAIMED["C01"] = dict(
+    category="exploration",
+    technique="bounded-exhaustive lattice enumeration (model zoo x state lattice x every derivative key x every contribution); Richardson finite-difference oracle on neighbouring real states",
+    text="For every lattice state of every zoo model, every first/second/third-order derivative key (mixed keys in both orders) of every Helmholtz-energy contribution is compared with a Richardson difference of the next-lower-order quantity at neighbouring states, every State getter with the documented sign/key mapping of the analytic total, and the caloric getters with differences between neighbouring constructed states (new_npt/new_nts/new_nph). A dropped dual part, wrong chain-rule factor or wrong key mapping produces an O(1) relative error on every state that reaches the code, five orders above the acceptance band.",
+    design_ref="§5 C01, §3.3",
+)
+
 NOT_YET = "check not built yet (work in progress; see DESIGN.md §9 build order) - not a claim that the technique cannot apply"
 
 ALL = ["C%02d" % i for i in range(1, 21)]
